@@ -85,6 +85,7 @@ def run(ctx, rep):
         return cache
 
     c06.rule_init(ctx, rep, scope=scope)  # (the constructors the Deserialize impls reach)
+    balance.rule_payload_gap(ctx, rep)  # a failing or panicking deserialiser leaves every handle it was given (`deserialize_in_place`) holding a live value
     balance.rule_racy_assert(ctx, rep, strict=True)  # "exactly the calls ... errors included": no assertion on re-read counts that another owner's clone or drop can falsify in the middle of a (de)serialisation
     balance.rule_write_provenance(ctx, rep)  # "the sole owner": the pointer the constructors store may be written through (get_mut, the final drop)
     rep.floor("R-PROVENANCE", 4, "handle literals in the crate's constructors (today 30+)")
@@ -373,6 +374,7 @@ def main(argv):
             " Added later: R-GATE over every method of the serde impls (no write into a payload other handles may share, e.g. in an overridden `deserialize_in_place`); the two handles' impls may delegate to each other."
             " Round thirteen: R-PROVENANCE over every handle literal (the sole owner's pointer may be written through)."
             ' Round sixteen: strict R-RACY-ASSERT (including two readings of the count compared with each other).'
+            ' Round eighteen: R-PAYLOAD-GAP as a premise (a failing deserialiser leaves every handle it was given holding a live value).'
         ),
         rule_text="instances = the four serde methods (in every serde-enabled configuration)",
         trusted_base=["rustc MIR/def-use", "Result::map calls its function only on Ok and returns Err unchanged", "parametricity"],
